@@ -330,3 +330,292 @@ proof fn lemma_rle_none(runs: Seq<(int, int)>, o: Seq<Value>, d: Seq<f64>, cs: i
 {
     reveal(rle_deep);
 }
+
+// ---------------- shims for the skeleton of `next` (D) ----------------
+/// R11 shim for `Box<dyn Iterator<Item = Value> + Send>` built from `next_sections.into_iter()`:
+/// a queue handing out the Vec's values in order (fused)
+#[verifier::external_body]
+pub struct VQueue { _p: u8 }
+impl VQueue {
+    pub uninterp spec fn view(&self) -> Seq<Value>;
+    #[verifier::external_body]
+    pub fn from_vec(v: Vec<Value>) -> (r: VQueue)
+        ensures r@ == v@,
+    { unimplemented!() }
+    #[verifier::external_body]
+    pub fn next(&mut self) -> (r: Option<Value>)
+        ensures
+            old(self)@.len() == 0 ==> r is None && final(self)@ == old(self)@,
+            old(self)@.len() > 0 ==> r == Some(old(self)@[0]) && final(self)@ == old(self)@.subrange(1, old(self)@.len() as int),
+    { unimplemented!() }
+}
+/// `.map(Result::Ok)` on an Option<Value>
+pub fn map_ok(o: Option<Value>) -> (r: Option<Result<Value, MergeError>>)
+    ensures o is None ==> r is None, o is Some ==> r == Some(Ok::<Value, MergeError>(o->Some_0)),
+{ match o { Some(v) => Some(Ok(v)), None => None } }
+
+// ---------------- ghost history: windows computed so far, values handed out so far ----------------
+pub struct Win {
+    pub cs: int,                                     // window start
+    pub pre: Seq<Seq<Result<Value, MergeError>>>,    // what every section still had to deliver before this window
+    pub ks: Seq<int>,                                // where each section stopped
+    pub data: Seq<f64>,                              // the 50 000 sums
+    pub mdl: int,                                    // max_data_len handed to the encoder
+    pub runs: Seq<(int, int)>,                       // all runs of [0, mdl)
+    pub out: Seq<Value>,                             // the non-zero runs as values
+}
+pub struct Hist {
+    pub wins: Seq<Win>,
+    pub emitted: Seq<Value>,
+    pub limit: int,                                  // no input value ends beyond this base
+}
+spec fn zeros() -> Seq<f64> { Seq::new(DATA_SIZE as nat, |i: int| 0.0f64) }
+spec fn pends(s: Seq<(VIter, Option<Value>)>) -> Seq<Seq<Result<Value, MergeError>>> {
+    Seq::new(s.len(), |i: int| pend(s[i].1, s[i].0))
+}
+/// what the sections still have to deliver after a window in which section i stopped at ks[i]
+spec fn next_pends(pre: Seq<Seq<Result<Value, MergeError>>>, ks: Seq<int>) -> Seq<Seq<Result<Value, MergeError>>> {
+    Seq::new(pre.len(), |i: int| pre[i].subrange(ks[i], pre[i].len() as int))
+}
+spec fn stops_ok(pre: Seq<Seq<Result<Value, MergeError>>>, ks: Seq<int>, wend: int) -> bool {
+    &&& ks.len() == pre.len()
+    &&& forall|i: int| 0 <= i < pre.len() ==> is_stop(#[trigger] pre[i], ks[i], wend) && !stop_is_err(pre[i], ks[i])
+}
+/// the window after the first i sections: section 0's values first, then section 1's, ...
+#[verifier::opaque]
+spec fn win_data(pre: Seq<Seq<Result<Value, MergeError>>>, ks: Seq<int>, i: int, d0: Seq<f64>, cs: int) -> Seq<f64>
+    decreases i
+{
+    if i <= 0 { d0 } else { add_vals(win_data(pre, ks, i - 1, d0, cs), taken(pre[i - 1], ks[i - 1]), cs) }
+}
+#[verifier::opaque]
+spec fn win_mdl(pre: Seq<Seq<Result<Value, MergeError>>>, ks: Seq<int>, i: int, m0: int, cs: int) -> int
+    decreases i
+{
+    if i <= 0 { m0 } else { touch_ends(win_mdl(pre, ks, i - 1, m0, cs), taken(pre[i - 1], ks[i - 1]), cs) }
+}
+spec fn none_taken(pre: Seq<Seq<Result<Value, MergeError>>>, ks: Seq<int>) -> bool {
+    forall|i: int| 0 <= i < pre.len() ==> taken(#[trigger] pre[i], ks[i]).len() == 0
+}
+spec fn total_len(ps: Seq<Seq<Result<Value, MergeError>>>) -> int
+    decreases ps.len()
+{
+    if ps.len() == 0 { 0 } else { total_len(ps.drop_last()) + ps.last().len() }
+}
+spec fn ends_by(ps: Seq<Seq<Result<Value, MergeError>>>, limit: int) -> bool {
+    forall|i: int, j: int| 0 <= i < ps.len() && 0 <= j < ps[i].len() && (#[trigger] ps[i][j]) is Ok ==> ps[i][j]->Ok_0.end <= limit
+}
+spec fn all_sec_ok(ps: Seq<Seq<Result<Value, MergeError>>>, cs: int) -> bool {
+    forall|i: int| 0 <= i < ps.len() ==> sec_ok(#[trigger] ps[i], cs)
+}
+spec const MAXHALF: int = 0x7fff_ffff_ffff_ffff;
+
+/// ASSUMED composition of piece A over the sections (R9: the enclosing `for (section, last) in &mut
+/// self.sections` is dropped): `next_section` is applied to every section in order, threading data,
+/// max_data_len, max_sections, all_none; the first error stops the loop.  Every clause below is the
+/// fold of the corresponding proved clause of `next_section`.
+#[verifier::external_body]
+fn accumulate_sections(sections: &mut Vec<(VIter, Option<Value>)>, data: &mut Vec<f64>, current_start: u32, max_data_len: usize, max_sections: usize, all_none: bool, self_error: &mut bool) -> (r: (usize, usize, bool, Option<MergeError>, Ghost<Seq<int>>))
+    requires
+        old(data)@.len() == DATA_SIZE, current_start as int + DATA_SIZE as int <= u32::MAX as int,
+        all_sec_ok(pends(old(sections)@), current_start as int),
+        max_data_len <= DATA_SIZE,
+        max_sections as int + total_len(pends(old(sections)@)) < usize::MAX as int,
+    ensures
+        final(data)@.len() == DATA_SIZE, r.0 <= DATA_SIZE,
+        r.3 is Some ==> *final(self_error),
+        r.3 is None ==> *final(self_error) == *old(self_error),
+        r.3 is None ==> stops_ok(pends(old(sections)@), r.4@, current_start as int + DATA_SIZE as int),
+        r.3 is None ==> pends(final(sections)@) == next_pends(pends(old(sections)@), r.4@),
+        r.3 is None ==> all_sec_ok(pends(final(sections)@), current_start as int + DATA_SIZE as int),
+        r.3 is None ==> final(data)@ == win_data(pends(old(sections)@), r.4@, old(sections)@.len() as int, old(data)@, current_start as int),
+        r.3 is None ==> r.0 as int == win_mdl(pends(old(sections)@), r.4@, old(sections)@.len() as int, max_data_len as int, current_start as int),
+        r.3 is None ==> r.2 == (all_none && none_taken(pends(old(sections)@), r.4@)),
+        r.3 is None ==> r.1 as int <= max_sections as int + total_len(pends(old(sections)@)),
+{ unimplemented!() }
+
+// ---------------- the state invariant of ValueIter, in pieces ----------------
+spec fn opt_v(o: Option<Value>) -> Seq<Value> { if o is Some { seq![o->Some_0] } else { Seq::empty() } }
+/// all window outputs, in order
+#[verifier::opaque]
+spec fn flat(ws: Seq<Win>) -> Seq<Value>
+    decreases ws.len()
+{
+    if ws.len() == 0 { Seq::empty() } else { flat(ws.drop_last()) + ws.last().out }
+}
+/// one window: its sums are the fold of the inputs' values, its output is the RLE of the sums
+spec fn win_ok(w: Win) -> bool {
+    &&& 0 <= w.cs && w.cs + DATA_SIZE as int <= u32::MAX as int
+    &&& stops_ok(w.pre, w.ks, w.cs + DATA_SIZE as int)
+    &&& w.data == win_data(w.pre, w.ks, w.pre.len() as int, zeros(), w.cs)
+    &&& 0 <= w.mdl <= DATA_SIZE
+    &&& runs_tile(w.runs, w.mdl)
+    &&& forall|q: int| 0 <= q < w.runs.len() ==> run_ok(w.data, (#[trigger] w.runs[q]).0, w.runs[q].1, w.mdl)
+    &&& w.out == emit(w.runs, w.data, w.cs)
+}
+#[verifier::opaque]
+spec fn windows_ok(ws: Seq<Win>) -> bool { forall|i: int| 0 <= i < ws.len() ==> win_ok(#[trigger] ws[i]) }
+/// windows follow each other: starts advance by exactly DATA_SIZE, each window starts from what the
+/// previous one left pending, the sections now hold what the last one left pending
+#[verifier::opaque]
+spec fn chain_ok(ws: Seq<Win>, ns: int, cur: Seq<Seq<Result<Value, MergeError>>>) -> bool {
+    &&& forall|i: int| 0 <= i < ws.len() ==> (#[trigger] ws[i]).cs + (ws.len() - i) * (DATA_SIZE as int) == ns
+    &&& forall|i: int| 0 <= i < ws.len() - 1 ==> (#[trigger] ws[i + 1]).pre == next_pends(ws[i].pre, ws[i].ks)
+    &&& ws.len() > 0 ==> cur == next_pends(ws.last().pre, ws.last().ks)
+}
+/// C15: everything handed out so far followed by everything computed but not yet handed out is
+/// exactly the concatenation of the window outputs: nothing dropped, nothing emitted twice
+spec fn conserved(h: Hist, pending_out: Seq<Value>) -> bool { h.emitted + pending_out == flat(h.wins) }
+/// C15: the whole output stream is sorted, disjoint, non-empty values; all of it lies before `ns`
+#[verifier::opaque]
+spec fn stream_sorted(ws: Seq<Win>, ns: int) -> bool { sorted_in(flat(ws), 0, ns) }
+#[verifier::opaque]
+spec fn inputs_ok(ps: Seq<Seq<Result<Value, MergeError>>>, ns: int, limit: int) -> bool {
+    &&& all_sec_ok(ps, ns)
+    &&& ends_by(ps, limit)
+    &&& total_len(ps) <= MAXHALF
+    &&& limit + 2 * (DATA_SIZE as int) <= u32::MAX as int
+}
+
+// ---------------- lemmas (D) ----------------
+proof fn lemma_flat_push(ws: Seq<Win>, w: Win)
+    ensures flat(ws.push(w)) == flat(ws) + w.out,
+{
+    reveal_with_fuel(flat, 1);
+    assert(ws.push(w).drop_last() =~= ws);
+}
+proof fn lemma_sorted_concat(a: Seq<Value>, b: Seq<Value>, lo: int, mid: int, hi: int)
+    requires sorted_in(a, lo, mid), sorted_in(b, mid, hi), mid <= hi,
+    ensures sorted_in(a + b, lo, hi),
+{
+    let c = a + b;
+    assert forall|i: int| 0 <= i < c.len() implies lo <= (#[trigger] c[i]).start < c[i].end <= hi by {
+        if i < a.len() { assert(c[i] == a[i]); } else { assert(c[i] == b[i - a.len()]); }
+    }
+    assert forall|i: int, j: int| 0 <= i < j < c.len() implies (#[trigger] c[i]).end <= (#[trigger] c[j]).start by {
+        if i < a.len() { assert(c[i] == a[i]); } else { assert(c[i] == b[i - a.len()]); }
+        if j < a.len() { assert(c[j] == a[j]); } else { assert(c[j] == b[j - a.len()]); }
+    }
+}
+proof fn lemma_total_len_suffix(pre: Seq<Seq<Result<Value, MergeError>>>, ks: Seq<int>)
+    requires ks.len() == pre.len(), forall|i: int| 0 <= i < pre.len() ==> 0 <= #[trigger] ks[i] <= pre[i].len(),
+    ensures total_len(next_pends(pre, ks)) <= total_len(pre),
+    decreases pre.len(),
+{
+    if pre.len() > 0 {
+        lemma_total_len_suffix(pre.drop_last(), ks.drop_last());
+        assert(next_pends(pre, ks).drop_last() =~= next_pends(pre.drop_last(), ks.drop_last()));
+        assert(next_pends(pre, ks).last() == pre.last().subrange(ks.last(), pre.last().len() as int));
+    }
+}
+/// one more window: all state predicates move from (ws, cs) to (ws.push(w), cs + DATA_SIZE); the held
+/// back value (if any) ends at or before the new window's start, so it goes in front of the new runs
+proof fn lemma_window_step(h: Hist, lv: Option<Value>, w: Win, cur: Seq<Seq<Result<Value, MergeError>>>, post: Seq<Seq<Result<Value, MergeError>>>)
+    requires
+        conserved(h, opt_v(lv)), stream_sorted(h.wins, w.cs), windows_ok(h.wins), chain_ok(h.wins, w.cs, cur),
+        inputs_ok(cur, w.cs, h.limit),
+        win_ok(w), w.pre == cur, post == next_pends(cur, w.ks), all_sec_ok(post, w.cs + DATA_SIZE as int),
+        sorted_in(w.out, w.cs, w.cs + w.mdl),
+    ensures
+        ({
+            let h2 = Hist { wins: h.wins.push(w), emitted: h.emitted, limit: h.limit };
+            &&& conserved(h2, opt_v(lv) + w.out)
+            &&& stream_sorted(h2.wins, w.cs + DATA_SIZE as int)
+            &&& windows_ok(h2.wins)
+            &&& chain_ok(h2.wins, w.cs + DATA_SIZE as int, post)
+            &&& inputs_ok(post, w.cs + DATA_SIZE as int, h.limit)
+            &&& sorted_in(opt_v(lv) + w.out, 0, w.cs + DATA_SIZE as int)
+            &&& (lv is Some ==> lv->Some_0.start < lv->Some_0.end && lv->Some_0.end <= w.cs)
+        }),
+{
+    reveal(stream_sorted); reveal(windows_ok); reveal(chain_ok); reveal(inputs_ok);
+    let ws2 = h.wins.push(w);
+    lemma_flat_push(h.wins, w);
+    lemma_sorted_concat(flat(h.wins), w.out, 0, w.cs, w.cs + DATA_SIZE as int);
+    assert(h.emitted + (opt_v(lv) + w.out) =~= (h.emitted + opt_v(lv)) + w.out);
+    assert forall|i: int| 0 <= i < ws2.len() implies win_ok(#[trigger] ws2[i]) by {
+        if i < h.wins.len() { assert(ws2[i] == h.wins[i]); }
+    }
+    assert forall|i: int| 0 <= i < ws2.len() implies (#[trigger] ws2[i]).cs + (ws2.len() - i) * (DATA_SIZE as int) == w.cs + DATA_SIZE as int by {
+        if i < h.wins.len() { assert(ws2[i] == h.wins[i]); }
+    }
+    assert forall|i: int| 0 <= i < ws2.len() - 1 implies (#[trigger] ws2[i + 1]).pre == next_pends(ws2[i].pre, ws2[i].ks) by {
+        assert(ws2[i] == h.wins[i]);
+        if i + 1 < h.wins.len() { assert(ws2[i + 1] == h.wins[i + 1]); } else { assert(h.wins[i] == h.wins.last()); }
+    }
+    // inputs: suffixes keep the end bound and do not grow
+    assert forall|i: int, j: int| 0 <= i < post.len() && 0 <= j < post[i].len() && (#[trigger] post[i][j]) is Ok implies post[i][j]->Ok_0.end <= h.limit by {
+        assert(post[i][j] == cur[i][w.ks[i] + j]);
+    }
+    lemma_total_len_suffix(cur, w.ks);
+    // the held-back value is the last element of the stream so far
+    let f = flat(h.wins);
+    let q = opt_v(lv) + w.out;
+    if lv is Some {
+        assert(f[f.len() - 1] == (h.emitted + opt_v(lv))[f.len() - 1]);
+        assert(f[f.len() - 1] == lv->Some_0);
+    }
+    let f2 = flat(ws2);
+    assert forall|i: int| 0 <= i < q.len() implies 0 <= (#[trigger] q[i]).start < q[i].end <= w.cs + DATA_SIZE as int by {
+        assert(q[i] == f2[h.emitted.len() + i]);
+    }
+    assert forall|i: int, j: int| 0 <= i < j < q.len() implies (#[trigger] q[i]).end <= (#[trigger] q[j]).start by {
+        assert(q[i] == f2[h.emitted.len() + i]); assert(q[j] == f2[h.emitted.len() + j]);
+    }
+}
+/// past the last input base nothing can be taken: the window sees no value (termination of the window loop)
+proof fn lemma_past_limit(ps: Seq<Seq<Result<Value, MergeError>>>, ks: Seq<int>, cs: int, limit: int)
+    requires inputs_ok(ps, cs, limit), stops_ok(ps, ks, cs + DATA_SIZE as int), cs > limit,
+    ensures none_taken(ps, ks),
+{
+    reveal(inputs_ok); reveal(sec_ok);
+    assert forall|i: int| 0 <= i < ps.len() implies taken(#[trigger] ps[i], ks[i]).len() == 0 by {
+        let p = ps[i];
+        assert(sec_ok(p, cs));
+        assert(is_stop(p, ks[i], cs + DATA_SIZE as int) && !stop_is_err(p, ks[i]));
+        if p.len() > 0 {
+            if p[0] is Ok {
+                assert(cs <= p[0]->Ok_0.end);
+                assert(ps[i][0]->Ok_0.end <= limit);
+            } else {
+                assert(ks[i] == 0);
+            }
+        }
+    }
+}
+/// a window in which no section saw a value leaves every section exhausted
+proof fn lemma_none_taken_exhausted(ps: Seq<Seq<Result<Value, MergeError>>>, ks: Seq<int>, wend: int)
+    requires stops_ok(ps, ks, wend), none_taken(ps, ks),
+    ensures forall|i: int| 0 <= i < ps.len() ==> (#[trigger] next_pends(ps, ks)[i]).len() == 0,
+{
+    assert forall|i: int| 0 <= i < ps.len() implies (#[trigger] next_pends(ps, ks)[i]).len() == 0 by {
+        assert(taken(ps[i], ks[i]).len() == 0);
+        assert(is_stop(ps[i], ks[i], wend));
+    }
+}
+
+// ---------------- shims for insert_into_queue (C) ----------------
+#[verifier::external_body]
+pub fn vpanic() -> !
+    requires false
+{ panic!() }
+/// `std::mem::replace(queued, v)` where `queued` is the element idx of the queue handed out by iter_mut
+pub fn replace_at(q: &mut Vec<Value>, i: usize, v: Value) -> (r: Value)
+    requires i < old(q)@.len(),
+    ensures r == old(q)@[i as int], final(q)@ == old(q)@.update(i as int, v),
+{ let r = q[i]; q.set(i, v); r }
+/// utils::merge::merge_into — proved by the Kani unit `merge_into` (contracts/merge_into): under PRE
+/// (both non-empty, sharing at least one base; finiteness of the values is not expressible here) the
+/// pieces tile [min start, max end) without gap or overlap.  Only PRE is used by this unit.
+#[verifier::external_body]
+pub fn merge_into(one: Value, two: Value) -> (r: (Value, Option<Value>, Option<Value>, Option<Value>))
+    requires one.start < one.end, two.start < two.end, one.end > two.start, two.end > one.start,
+    ensures
+        r.0.start == (if one.start <= two.start { one.start } else { two.start }),
+        r.0.start < r.0.end,
+{ unimplemented!() }
+/// sorted, disjoint, non-empty
+spec fn queue_sorted(o: Seq<Value>) -> bool {
+    &&& forall|i: int| 0 <= i < o.len() ==> (#[trigger] o[i]).start < o[i].end
+    &&& forall|i: int, j: int| 0 <= i < j < o.len() ==> (#[trigger] o[i]).end <= (#[trigger] o[j]).start
+}
